@@ -304,3 +304,84 @@ func VerifH_c06_l2() { vL2(monG2 | monG34 | monG8) }
 // number in its integer arguments, panics or allocates by a client number
 // (G8), and a second command on the same connection is answered afterwards.
 func VerifH_c13_l2() { vL2(monG8) }
+
+// VerifH_c13_restore: RESTORE with an arbitrary payload of 10..16 bytes
+// (the solver has to produce the checksum): never a panic, and whatever key
+// it creates is a well-formed key of one type that every reader can handle.
+func VerifH_c13_restore() {
+	VerifSetup()
+	cs := vNewClient()
+	l := []int{10, 13, 14, 15, 16}[vChoice("len", 5)]
+	p := vBytesN("p", l)
+	replace := vBool("replace")
+	if vBool("exists") {
+		vCmd(cs, "SET", "k", "old")
+	}
+	args := []string{"RESTORE", "k", "0", string(p)}
+	if replace {
+		args = append(args, "REPLACE")
+	}
+	var r respValue
+	panicked, msg := vCatch(func() { r = vCmd(cs, args...) })
+	vAssert("restore-no-panic", !panicked)
+	if panicked {
+		vNote(msg)
+		return
+	}
+	vReach("restore-accepts-some-payload", vIsOK(r))
+	// every reader copes with what is there now
+	readers := [][]string{{"TYPE", "k"}, {"GET", "k"}, {"STRLEN", "k"}, {"LRANGE", "k", "0", "-1"}, {"LLEN", "k"}, {"HGETALL", "k"}, {"HLEN", "k"},
+		{"SMEMBERS", "k"}, {"SCARD", "k"}, {"DUMP", "k"}, {"COPY", "k", "k9"}, {"APPEND", "k", "x"}, {"RPUSH", "k", "x"}, {"SADD", "k", "x"}, {"HSET", "k", "f", "v"},
+		{"SORT", "k", "ALPHA"}, {"RENAME", "k", "k8"}, {"DEL", "k8"}}
+	for _, rd := range readers {
+		p2, m2 := vCatch(func() { vCmd(cs, rd...) })
+		vAssert("restored-key-readable-without-panic", !p2)
+		if p2 {
+			vNote(rd[0] + ": " + m2)
+			return
+		}
+	}
+	oneType, nonEmpty, placed := vKeyspaceOK(cs)
+	vAssert("restore-one-type-per-key", oneType)
+	vAssert("restore-no-empty-collection", nonEmpty)
+	vAssert("restore-dict-placement", placed)
+}
+
+// VerifH_c13_dump_restore: DUMP of a key of any type followed by RESTORE of
+// that payload under another name: either refused with an error, or the new
+// key has the same type and value; nothing panics afterwards.
+func VerifH_c13_dump_restore() {
+	VerifSetup()
+	cs := vNewClient()
+	kind := 1 + vChoice("kind", 4)
+	switch kind {
+	case preString:
+		vCmd(cs, "SET", "k", vString("v", 2))
+	case preList:
+		vCmd(cs, "RPUSH", "k", "e1", vStringN("v", 1))
+	case preHash:
+		vCmd(cs, "HSET", "k", "f1", vStringN("v", 1))
+	case preSet:
+		vCmd(cs, "SADD", "k", "m1", "m2")
+	}
+	d := vCmd(cs, "DUMP", "k")
+	payload, ok := vBulkOf(d)
+	vAssert("dump-returns-bulk", ok)
+	if !ok {
+		return
+	}
+	var r respValue
+	panicked, msg := vCatch(func() { r = vCmd(cs, "RESTORE", "k2", "0", payload) })
+	vAssert("dump-restore-no-panic", !panicked)
+	if panicked {
+		vNote(msg)
+		return
+	}
+	if vIsErr(r) {
+		vAssert("refused-restore-creates-nothing", vIsInt(vCmd(cs, "EXISTS", "k2"), 0))
+		return
+	}
+	vAssert("restored-copy-equals-original", vSnapEq(vSnapKey(cs, "k"), vSnapKey(cs, "k2")))
+	oneType, nonEmpty, placed := vKeyspaceOK(cs)
+	vAssert("dump-restore-keyspace-ok", oneType && nonEmpty && placed)
+}
